@@ -43,6 +43,7 @@ def gen(tier: str, seed: int) -> list[Case]:
         pkg = pg.random_pkg(rng, cfg)
         add_inheritance(rng, pkg)
         add_defaults(rng, pkg)
+        add_parameters_after_defaults(rng, pkg)
         cases.append(Case(cid=f"c12-{i}", files=pg.render(pkg), opts=(["-nc"] if i % 4 == 3 else []) + noise_opts(seed, PID, i), meta={"pkg": pkg}, reach=REACH))
     for name, pkg in scenarios(rng).items():
         cases.append(Case(cid=f"c12-scn-{name}", files=pg.render(pkg), opts=[], meta={"pkg": pkg}, reach=REACH))
@@ -161,6 +162,16 @@ def add_defaults(rng, pkg: pg.Pkg) -> None:
                     else:
                         p.default = "None"
                         p.anno = f"{p.anno} | None" if p.anno and "None" not in p.anno else p.anno
+
+
+def add_parameters_after_defaults(rng, pkg: pg.Pkg) -> None:
+    """Parameters WITHOUT default behind parameters with one: *args, keyword-only parameters, **kwargs."""
+    for g in pg.walk(pkg):
+        f = g.obj
+        if isinstance(f, pg.Fn) and f.role != "prop" and f.params and all(p.kind == "pk" for p in f.params) and rng.random() < 0.4:
+            tail = rng.choice([["va"], ["ko"], ["vk"], ["va", "ko"], ["ko", "vk"], ["va", "ko", "vk"]])
+            for k in tail:
+                f.params.append(pg.Param({"va": "rest_args", "ko": "flag_kw", "vk": "more_opts"}[k] + str(len(f.params)), "int", None, k))
 
 
 def structural(api: dict) -> list[Viol]:
@@ -306,6 +317,9 @@ def make_judge(chk: Check):
                     if pe is None:
                         viols.append(Viol("missing-entry", "parameter", {"id": f"{g.id}/{p.name}"}))
                         continue
+                    if p.default is None:
+                        if pe.get("default_value") is not None or pe.get("is_optional"):
+                            viols.append(Viol("default-invented", f"parameter:{p.kind}", {"id": pe["id"], "json_default": pe.get("default_value"), "json_is_optional": pe.get("is_optional")}))
                     if p.default is not None:
                         want = eval(p.default, {})  # noqa: S307 - our own literal
                         got = pe["default_value"]
